@@ -36,10 +36,11 @@
      (6') and such a query returns or aborts on an Unknown answer: never a panic, never out of fuel;
      (7) hence the status depends on the abstract framework only (not on earlier queries, cached
          results, retired variables).
-   STILL NOT PROVED: (6)-(7) for the preferred solver (KPr: (5) holds for it, the analysis of its search
-   loop on the shared session is missing), for the assumptions-on-attacks variants and their tables.  See NOTES-dyn.md, NOTES-agent-dynfun.md. *)
+     (8)-(10) the same for the dynamic PREFERRED solver (DS, with and without certificate, cache included),
+         with the fuel bound (complete + preferred extensions + 1) in the outcome form.
+   STILL NOT PROVED here: the assumptions-on-attacks variants and their tables.  See NOTES-dyn.md, NOTES-agent-dynfun.md. *)
 From Crusta Require Import Model.Dynamic Spec.Invariance Proofs.SolverBasics Proofs.DynDefs Proofs.DynProofs Proofs.DynEnc
-  Proofs.DynFunDefs Proofs.DynInv Proofs.DynFun Proofs.DynTotal Proofs.CompProofs Proofs.SolverWholeEx.
+  Proofs.DynFunDefs Proofs.DynInv Proofs.DynFun Proofs.DynTotal Proofs.DynPref Proofs.CompProofs Proofs.SolverWholeEx.
 
 Section C08.
 Variable L : Type.
@@ -242,6 +243,72 @@ Theorem C08_status_depends_on_framework_only :
   b1 = b2.
 Proof. exact (DynFun.dyn_status_history_independent L leqb leqb_spec). Qed.
 
+(* ------------------------------------------------------------------------------------------------
+   (8)-(10): the dynamic PREFERRED solver (kind KPr, skeptical acceptance) - Proofs/DynPref.v.
+   Its MaximalExtensionComputer runs on the SHARED session: by (5) the clauses present when the search
+   starts have, under the live selectors, exactly the complete extensions of the current framework as
+   models; the search blocks a set by the clause (literals of the live arguments outside it) ++ [g],
+   g = 1 + n_vars at the start, assumes -g in every call, and kills these clauses by [g] at the end. *)
+
+(* (8) the functional theorem: a DS query of the preferred solver on a label of the specification store
+   of the whole history that returns gives b = true exactly when EVERY preferred extension of the
+   abstract framework of that store contains the argument, and a certificate exactly when promised (flag
+   on and b = false): a PREFERRED extension, duplicate-free, made of live arguments, omitting the
+   argument.  Any valid oracle, any history, both n_vars disciplines, answers served from the cache
+   included (the cache only ever serves NO answers with their stored extension; the "accepted" lists it
+   also records may be unsound - first intermediate set containing the argument - but are never served). *)
+Theorem C08_preferred_functional :
+  forall oracle, valid_oracle oracle ->
+  forall thr s ps os fuel cert l id s' b c ps',
+  vreach L leqb oracle thr KPr s ps os ->
+  get_argument L leqb (run_ops fresh os) l = Some id ->
+  dyn_query oracle L leqb thr fuel s QDS cert l ps = Done (s', (b, c)) ps' ->
+  let F := af_of (run_ops fresh os) in
+  (b = true <-> skep PR F [id]) /\
+  match c with
+  | Some X => cert = true /\ b = false /\ pr F X /\ NoDup X /\ incl X (args F) /\ ~ In id X
+  | None => cert = true -> b = true
+  end.
+Proof. exact (DynPref.pr_functional L leqb leqb_spec). Qed.
+
+(* (9) the outcome form: the query returns that answer, or aborts because the SAT solver answered
+   Unknown; it never panics, and it can run out of the model's fuel (one unit per step of the search)
+   only when the fuel is below (number of complete extensions) + (number of preferred extensions) + 1
+   of the current framework (AF.all_exts: the extensions as sublists of the argument list) - the bound
+   of the static preferred solver (C18) *)
+Theorem C08_preferred_answers :
+  forall oracle, valid_oracle oracle ->
+  forall thr s ps os fuel cert l id,
+  vreach L leqb oracle thr KPr s ps os ->
+  get_argument L leqb (run_ops fresh os) l = Some id ->
+  match dyn_query oracle L leqb thr fuel s QDS cert l ps with
+  | Done (s', (b, c)) ps' =>
+      let F := af_of (run_ops fresh os) in
+      (b = true <-> skep PR F [id]) /\
+      match c with
+      | Some X => cert = true /\ b = false /\ pr F X /\ NoDup X /\ incl X (args F) /\ ~ In id X
+      | None => cert = true -> b = true
+      end
+  | Abort _ => True
+  | Panic _ => False
+  | OutOfFuel _ =>
+      fuel < length (all_exts CO (af_of (run_ops fresh os))) + length (all_exts PR (af_of (run_ops fresh os))) + 1
+  end.
+Proof. exact (DynPref.pr_functional_run L leqb leqb_spec). Qed.
+
+(* (10) the status of the preferred solver depends on the abstract framework only *)
+Theorem C08_preferred_status_depends_on_framework_only :
+  forall oracle1 oracle2 thr1 thr2 s1 s2 ps1 ps2 os1 os2 fuel1 fuel2 cert1 cert2 l1 l2 id
+         s1' s2' b1 b2 c1 c2 ps1' ps2',
+  valid_oracle oracle1 -> valid_oracle oracle2 ->
+  vreach L leqb oracle1 thr1 KPr s1 ps1 os1 -> vreach L leqb oracle2 thr2 KPr s2 ps2 os2 ->
+  af_equiv (af_of (run_ops fresh os1)) (af_of (run_ops fresh os2)) ->
+  get_argument L leqb (run_ops fresh os1) l1 = Some id -> get_argument L leqb (run_ops fresh os2) l2 = Some id ->
+  dyn_query oracle1 L leqb thr1 fuel1 s1 QDS cert1 l1 ps1 = Done (s1', (b1, c1)) ps1' ->
+  dyn_query oracle2 L leqb thr2 fuel2 s2 QDS cert2 l2 ps2 = Done (s2', (b2, c2)) ps2' ->
+  b1 = b2.
+Proof. exact (DynPref.pr_status_history_independent L leqb leqb_spec). Qed.
+
 End C08.
 
 (* (4) the clause templates of the dynamic encoder are a correct encoding (the analogue of C10 for
@@ -350,6 +417,32 @@ Proof.
   - split; [vm_compute; reflexivity|]. split; [vm_compute; reflexivity|]. split; reflexivity.
 Qed.
 
+(* the hypotheses of (8)-(10) are satisfiable and the queries return: preferred solver, brute-force
+   reference oracle, history  +a +b a<->b, DS a (NO, certificate {b}), +c +d a->c b->c c->d, DS d (YES:
+   both preferred extensions {a,d}, {b,d} contain d); then DS a with certificate returns NO with the
+   preferred extension {b, d}  (labels 1 2 3 4 = a b c d, ids 0 1 2 3) *)
+Example C08_preferred_inhabited :
+  exists s ps s' b c ps',
+    valid_oracle bf_oracle /\
+    vreach nat Nat.eqb bf_oracle 1 KPr s ps
+      ((((((((([] ++ [OpNewArg 1]) ++ [OpNewArg 2]) ++ [OpNewAtt 1 2]) ++ [OpNewAtt 2 1]) ++ [OpNewArg 3]) ++ [OpNewArg 4]) ++ [OpNewAtt 1 3]) ++ [OpNewAtt 2 3]) ++ [OpNewAtt 3 4]) /\
+    get_argument nat Nat.eqb
+      (run_ops nat Nat.eqb (fresh_fw nat Nat.eqb)
+         [OpNewArg 1; OpNewArg 2; OpNewAtt 1 2; OpNewAtt 2 1; OpNewArg 3; OpNewArg 4; OpNewAtt 1 3; OpNewAtt 2 3;
+          OpNewAtt 3 4]) 1 = Some 0 /\
+    dyn_query bf_oracle nat Nat.eqb 1 40 s QDS true 1 ps = Done (s', (b, c)) ps' /\
+    b = false /\ c = Some [1; 3].
+Proof.
+  do 6 eexists. split; [exact bf_oracle_valid|]. split.
+  - eapply (vreach_query nat Nat.eqb bf_oracle 1 KPr _ _ _ 40 QDS true 4).
+    + do 5 eapply vreach_update.
+      eapply (vreach_query nat Nat.eqb bf_oracle 1 KPr _ _ _ 40 QDS true 1).
+      * do 4 eapply vreach_update. eapply vreach_new with (ps0 := init_st CadicalLike). reflexivity.
+      * vm_compute. reflexivity.
+    + vm_compute. reflexivity.
+  - split; [vm_compute; reflexivity|]. split; [vm_compute; reflexivity|]. split; reflexivity.
+Qed.
+
 Print Assumptions C08_query_resynchronises_partial.
 Print Assumptions C08_recompute_wrapper_framework_partial.
 Print Assumptions C08_tables_partial.
@@ -365,6 +458,9 @@ Print Assumptions C08_clause_set_invariant.
 Print Assumptions C08_complete_stable_functional.
 Print Assumptions C08_complete_stable_answers.
 Print Assumptions C08_status_depends_on_framework_only.
+Print Assumptions C08_preferred_functional.
+Print Assumptions C08_preferred_answers.
+Print Assumptions C08_preferred_status_depends_on_framework_only.
 Print Assumptions C08_complete_template_sound_partial.
 Print Assumptions C08_complete_template_complete_partial.
 Print Assumptions C08_stable_template_sound_partial.
